@@ -6,6 +6,7 @@ import (
 	"fmt"
 	"go/token"
 	"go/types"
+	"regexp"
 	"sort"
 	"strings"
 
@@ -54,18 +55,20 @@ type VC struct {
 	strLits  map[string]Term
 	oblNames map[string]int
 	cellSeq  int
+	anonNames map[string]string
 	epochSeq int
 	inputs   []ModelVar
 }
 
 func newVC(eng *Engine, mode Mode, fnName string) *VC {
 	vc := &VC{eng: eng, ar: Arith{mode}, declSet: map[string]bool{}, fnName: fnName, tids: map[string]int{},
-		trusted: map[string]bool{}, dropped: map[string]bool{}, structs: map[string]*types.Struct{}, strLits: map[string]Term{}, oblNames: map[string]int{}}
+		trusted: map[string]bool{}, dropped: map[string]bool{}, structs: map[string]*types.Struct{}, strLits: map[string]Term{}, oblNames: map[string]int{}, anonNames: map[string]string{}}
 	idx := vc.ar.IdxSort()
 	vc.decl("sort:Slice", fmt.Sprintf("(declare-datatypes ((Slice 0)) (((mk-slice (s-ref Int) (s-off %s) (s-len %s) (s-cap %s)))))", idx, idx, idx))
 	vc.decl("sort:Iface", "(declare-datatypes ((Iface 0)) (((mk-iface (i-typ Int) (i-val Int)))))")
 	vc.decl("sort:Str", "(declare-sort Str 0)")
 	vc.decl("sort:Float", "(declare-sort Float 0)")
+	vc.decl("sort:BSeq", "(declare-sort BSeq 0)")
 	vc.decl("fun:str.len", fmt.Sprintf("(declare-fun str.len (Str) %s)", idx))
 	vc.decl("fun:str.at", fmt.Sprintf("(declare-fun str.at (Str %s) %s)", idx, vc.ar.Sort(IntKind{8, false})))
 	return vc
@@ -184,8 +187,16 @@ func isBigIntPtr(t types.Type) bool {
 	return ok && n.Obj().Pkg() != nil && n.Obj().Pkg().Path() == "math/big" && n.Obj().Name() == "Int"
 }
 
+var byteRuneRe = regexp.MustCompile(`\b(byte|rune)\b`)
+
 func typeKey(t types.Type) string {
-	return types.TypeString(t, func(p *types.Package) string { return p.Path() })
+	s := types.TypeString(t, func(p *types.Package) string { return p.Path() })
+	return byteRuneRe.ReplaceAllStringFunc(s, func(m string) string {
+		if m == "byte" {
+			return "uint8"
+		}
+		return "int32"
+	})
 }
 
 func (vc *VC) structSort(t types.Type) string {
@@ -194,9 +205,15 @@ func (vc *VC) structSort(t types.Type) string {
 	if n, ok := t.(*types.Named); ok {
 		name = "S_" + sanitize(typeKey(n))
 	} else {
-		name = "S_anon_" + sanitize(typeKey(st))
+		k := typeKey(st)
+		name = "S_anon_" + sanitize(k)
 		if len(name) > 80 {
-			name = fmt.Sprintf("S_anon_%d", len(vc.structs))
+			if n, ok := vc.anonNames[k]; ok {
+				name = n
+			} else {
+				name = fmt.Sprintf("S_anon_%d", len(vc.anonNames))
+				vc.anonNames[k] = name
+			}
 		}
 	}
 	if _, ok := vc.structs[name]; ok {
@@ -522,6 +539,32 @@ func (vc *VC) kindID(name string) int {
 	id := len(vc.tids) + 1
 	vc.tids[k] = id
 	return id
+}
+
+// locRef gives a canonical reference term for an interior pointer (injective in the owner).
+func (vc *VC) locRef(l *Loc) (Term, error) {
+	var t Term
+	switch l.Kind {
+	case LField:
+		fn := "fld_" + sanitize(l.Key[2:])
+		vc.decl("fun:"+fn, fmt.Sprintf("(declare-fun %s (Int) Int)\n(declare-fun %s_inv (Int) Int)\n(assert (forall ((x Int)) (! (and (= (%s_inv (%s x)) x) (not (= (%s x) 0)) (= (ref.kind (%s x)) %d)) :pattern ((%s x)))))",
+			fn, fn, fn, fn, fn, fn, vc.kindID(fn), fn))
+		t = app(SInt, fn, l.Ref)
+	case LHeapCell:
+		t = l.Ref
+	default:
+		return Term{}, unsupported("reference term for this kind of interior pointer")
+	}
+	for _, pe := range l.Path {
+		if pe.Idx != nil {
+			return Term{}, unsupported("reference term for a pointer into an array value")
+		}
+		fn := "pth_" + sanitize(typeKey(pe.From)) + "_" + pe.Name
+		vc.decl("fun:"+fn, fmt.Sprintf("(declare-fun %s (Int) Int)\n(declare-fun %s_inv (Int) Int)\n(assert (forall ((x Int)) (! (and (= (%s_inv (%s x)) x) (not (= (%s x) 0)) (= (ref.kind (%s x)) %d)) :pattern ((%s x)))))",
+			fn, fn, fn, fn, fn, fn, vc.kindID(fn), fn))
+		t = app(SInt, fn, t)
+	}
+	return t, nil
 }
 
 // navigate reads through a path inside a value.
